@@ -818,3 +818,18 @@ func singleStoreIgnoringReaders(al *ssa.Alloc) ssa.Value {
 	}
 	return nil
 }
+
+// TypeIs: "the dynamic type of the interface value matched by X is T" (comma-ok type
+// assertion or type-switch arm).
+func TypeIs(name string, X func(ssa.Value) bool, T types.Type) Atom {
+	return Atom{Name: name, Match: func(c Cond) Pol {
+		return c.BoolIs(func(v ssa.Value) bool {
+			ex, ok := v.(*ssa.Extract)
+			if !ok || ex.Index != 1 {
+				return false
+			}
+			ta, ok := ex.Tuple.(*ssa.TypeAssert)
+			return ok && ta.CommaOk && types.Identical(ta.AssertedType, T) && X(ta.X)
+		})
+	}}
+}
